@@ -1090,7 +1090,7 @@ def fmaps(P, kmax, empties=True):
             yield list(t)
 
 
-FM_OPS = ("inverse", "covered", "shadow", "nucleic_reversed", "structure", "scale")
+FM_OPS = ("inverse", "covered", "shadow", "nucleic_reversed", "structure", "scale", "zeroed")
 
 
 def gen_fm_unary(tier, seed):
@@ -1114,9 +1114,28 @@ def gen_fm_unary(tier, seed):
             yield [P, spans, rnd.choice(FM_OPS)]
 
 
+def _fm_snapshot(fm):
+    return ([(bool(sp.lost), None if sp.lost else int(sp.start), None if sp.lost else int(sp.end),
+              None if sp.lost else bool(sp.reverse), int(len(sp))) for sp in fm.spans],
+            int(fm.parent_length), int(fm.start), int(fm.end), int(len(fm)))
+
+
 def contract_fm_unary(case):
+    """every operation returns a new map and leaves its receiver as it was"""
     P, spans, op = case
     fm = fm_make(P, spans)
+    before = _fm_snapshot(fm)
+    res = _contract_fm_unary(case, fm)
+    if res[0] == "ok":
+        after = _fm_snapshot(fm)
+        if after != before:
+            return ("fail", f"fm/{op}/receiver-modified/{fm_pattern(spans)}",
+                    f"FeatureMap({spans}, parent_length={P}).{op}() changed its receiver: {before} -> {after}")
+    return res
+
+
+def _contract_fm_unary(case, fm):
+    P, spans, op = case
     cols = fm_cols(spans)
     pattern = fm_pattern(spans)
     what = f"FeatureMap({spans}, parent_length={P}).{op}()"
@@ -1168,6 +1187,16 @@ def contract_fm_unary(case):
                 if f:
                     return f
             return ("ok", bool(spans))
+        if op == "zeroed":
+            real = [sp for sp in spans if sp[0] == "s"]
+            if not real:
+                return ("skip",)
+            lo = min(min(sp[1], sp[2]) for sp in real)
+            hi = max(max(sp[1], sp[2]) for sp in real)
+            z = fm.zeroed()
+            want = [None if c is None else [c[0] - lo, c[1]] for c in cols]
+            f = fm_compare(z, want, hi - lo, "fm/zeroed", pattern, what)
+            return f or ("ok", lo > 0)
         if op == "covered":
             r = fm.covered()
             f = fm_compare(r, [[p, False] for p in covered], P, "fm/covered", pattern, what, strand=False)
